@@ -708,3 +708,153 @@ Section Block.
     Qed.
   End DecDefault.
 End Block.
+
+(* ---- CFB ---------------------------------------------------------------------------------------------- *)
+
+Section Cfb.
+  Variable E D : bytes -> bytes -> bytes.
+  Hypothesis E_len : forall k b, length b = 16%nat -> length (E k b) = 16%nat.
+
+  Definition sp_cfb (fb : bool) (k : bytes) (sb : nat) (segs : list bytes) (I : bytes) : bytes :=
+    if fb then sp_cfb_enc (E k) sb segs I else sp_cfb_dec (E k) sb segs I.
+
+  Lemma pieces_cons n d f : (0 < n)%nat -> d <> [] -> (length d <= f)%nat ->
+    pieces (S f) n d = firstn n d :: pieces f n (skipn n d).
+  Proof. intros Hn Hne Hf. destruct d; [contradiction|reflexivity]. Qed.
+
+  (* whole segments through the model's loop = the CFB of SP 800-38A 6.3 *)
+  Lemma cfb_whole fb seg k : 1 <= seg <= 16 -> forall n data reg f,
+    length data = (N.to_nat seg * n)%nat -> length reg = 16%nat -> (length data < f)%nat ->
+    exists reg', cfb_loop E f fb seg k reg data [] =
+                 Ok (sp_cfb fb k (N.to_nat seg) (pieces (length data) (N.to_nat seg) data) reg, reg') /\
+      length reg' = 16%nat /\
+      length (sp_cfb fb k (N.to_nat seg) (pieces (length data) (N.to_nat seg) data) reg) = length data.
+  Proof.
+    intro Hseg. set (sb := N.to_nat seg). assert (Hsb : (1 <= sb <= 16)%nat) by (unfold sb; lia).
+    induction n as [|n IH]; intros data reg f Hl Hreg Hf.
+    - destruct data; [|cbn in Hl; lia]. destruct f; [lia|]. exists reg.
+      split; [destruct fb; reflexivity|]. split; [exact Hreg|destruct fb; reflexivity].
+    - destruct f as [|f]; [lia|].
+      destruct data as [|x data']; [cbn in Hl; lia|].
+      cbn [cfb_loop]. set (data := x :: data') in *.
+      assert (Hne : data <> []) by discriminate.
+      assert (Hge : (sb <= length data)%nat) by lia.
+      unfold blkE. replace (blen reg =? 16) with true by (symmetry; apply N.eqb_eq; unfold blen; lia).
+      cbn [bind]. pose proof (E_len k reg Hreg) as HO.
+      rewrite (takeN_firstn seg data), (dropN_skipn seg data). fold sb.
+      assert (Hin : length (firstn sb data) = sb) by (rewrite firstn_length; lia).
+      assert (Hbin : blen (firstn sb data) = seg) by (unfold blen; rewrite Hin; unfold sb; lia).
+      rewrite Hbin, (takeN_firstn seg (E k reg)). fold sb.
+      assert (Hko : length (firstn sb (E k reg)) = sb) by (rewrite firstn_length; lia).
+      set (outseg := xor_bytes (firstn sb data) (firstn sb (E k reg))).
+      assert (Hout : length outseg = sb) by (unfold outseg; rewrite xor_bytes_length; lia).
+      set (fed := if fb then outseg else firstn sb data).
+      assert (Hfed : length fed = sb) by (unfold fed; destruct fb; assumption).
+      assert (Hbfed : blen fed = seg) by (unfold blen; rewrite Hfed; unfold sb; lia).
+      rewrite Hbfed, (dropN_skipn seg reg). fold sb.
+      assert (Hreg' : length (skipn sb reg ++ fed) = 16%nat) by (rewrite app_length, skipn_length, Hfed; lia).
+      rewrite (cfb_acc E fb seg k f _ _ ([] ++ outseg)).
+      destruct (IH (skipn sb data) (skipn sb reg ++ fed) f) as (reg' & Hr & Hlr & Hlo);
+        [rewrite skipn_length; nia | exact Hreg' | rewrite skipn_length; lia |].
+      rewrite Hr. cbn [bind app]. exists reg'.
+      assert (Hpc : pieces (length data) sb data =
+                    firstn sb data :: pieces (length (skipn sb data)) sb (skipn sb data)).
+      { unfold data at 1 2. cbn [length pieces]. fold data. f_equal.
+        apply pieces_fuel; [lia| |lia]. rewrite skipn_length. unfold data. cbn [length]. lia. }
+      rewrite Hpc.
+      split; [|split; [exact Hlr|]].
+      + f_equal. f_equal. unfold sp_cfb, fed, outseg. destruct fb; reflexivity.
+      +
+        assert (Hstep : length (sp_cfb fb k sb (firstn sb data :: pieces (length (skipn sb data)) sb (skipn sb data)) reg)
+                        = (sb + length (skipn sb data))%nat).
+        { unfold sp_cfb. destruct fb; cbn [sp_cfb_enc sp_cfb_dec]; rewrite app_length;
+            fold outseg; rewrite Hout; f_equal; unfold sp_cfb, fed in Hlo; exact Hlo. }
+        rewrite Hstep, skipn_length. lia.
+  Qed.
+
+  Definition cfb_fb (d : direction) : bool := match d with Enc => true | Dec => false end.
+
+  Lemma cfb_mode_whole d s k st data n : 1 <= seg_of s <= 16 ->
+    length data = (N.to_nat (seg_of s) * n)%nat -> length (m_reg st) = 16%nat ->
+    exists st', mode_crypt E D d (CFB s) k st data =
+      Ok (sp_cfb (cfb_fb d) k (N.to_nat (seg_of s)) (pieces (length data) (N.to_nat (seg_of s)) data) (m_reg st), st') /\
+      length (m_reg st') = 16%nat /\
+      length (sp_cfb (cfb_fb d) k (N.to_nat (seg_of s)) (pieces (length data) (N.to_nat (seg_of s)) data) (m_reg st))
+        = length data.
+  Proof.
+    intros Hs Hl Hreg.
+    assert (Hmod : blen data mod seg_of s = 0).
+    { unfold blen. rewrite Hl, Nat2N.inj_mul, N2Nat.id, N.mul_comm. apply N.mod_mul. lia. }
+    destruct (cfb_whole (cfb_fb d) (seg_of s) k Hs n data (m_reg st) (S (length data)) Hl Hreg ltac:(lia))
+      as (reg' & Hr & Hlr & Hlo).
+    exists (MS reg' (m_rem st)).
+    destruct d; cbn [mode_crypt mode_encrypt mode_decrypt cfb_fb] in *; rewrite Hmod; cbn [N.eqb negb];
+      rewrite Hr; cbn [bind m_reg]; (split; [reflexivity|split; assumption]).
+  Qed.
+
+  (* Encrypter / Decrypter over CFB (padding default): CFB of the input padded with zero bytes to a
+     whole number of segments (one whole segment when it already is), cut back to the input length *)
+  Theorem cfb_feeder_std d s k iv ctr chunks :
+    1 <= seg_of s <= 16 -> key_ok k = true -> length iv = 16%nat ->
+    let sb := N.to_nat (seg_of s) in
+    let data := concat chunks in
+    let padded := data ++ zeros (sb - length data mod sb) in
+    stream_crypt E D (CFB s) d PadDefault k (Some iv) ctr chunks =
+    Ok (firstn (length data) (sp_cfb (cfb_fb d) k sb (pieces (length padded) sb padded) iv)).
+  Proof.
+    intros Hs Hk Hiv sb data padded.
+    rewrite (stream_crypt_split E D E_len). unfold stream_crypt. cbn [mode_init].
+    replace (blen iv =? 16) with true by (symmetry; apply N.eqb_eq; unfold blen; lia).
+    rewrite Hk. cbn [negb bind]. fold data.
+    set (st := MS iv []). set (seg := seg_of s) in *.
+    assert (Hsb : (1 <= sb <= 16)%nat) by (unfold sb; lia).
+    (* the zero padding, in N as the model computes it *)
+    assert (Hz : forall x : bytes, N.to_nat (seg - blen x mod seg) = (sb - length x mod sb)%nat).
+    { intro x. unfold blen, sb. pose proof (N.mod_lt (N.of_nat (length x)) seg ltac:(lia)).
+      rewrite N2Nat.inj_sub, N2Nat.inj_mod, Nat2N.id. reflexivity. }
+    assert (Hfinal : forall st1 r, final_crypt E D d (CFB s) PadDefault k st1 r =
+              let* (c, st') := mode_crypt E D d (CFB s) k st1 (r ++ zeros (sb - length r mod sb)) in
+              Ok (takeN (blen r) c, st')).
+    { intros st1 r. destruct d; cbn [final_crypt final_encrypt final_decrypt mode_crypt]; fold seg; rewrite Hz; reflexivity. }
+    assert (Hpadlen : forall x : bytes, exists n, length (x ++ zeros (sb - length x mod sb)) = (sb * n)%nat).
+    { intro x. exists (S (length x / sb)). rewrite app_length, zeros_length.
+      pose proof (Nat.div_mod (length x) sb ltac:(lia)). pose proof (Nat.mod_upper_bound (length x) sb ltac:(lia)). nia. }
+    unfold feeder_new. cbn [feed_all]. rewrite feed_some. cbn [app].
+    rewrite (drainF_unit E D (CFB s) d k st data I). cbn [unit_of]. fold seg.
+    destruct (Hpadlen data) as [np Hnp]. fold padded in Hnp.
+    destruct (cfb_mode_whole d s k st padded np Hs Hnp Hiv) as (stp & Hp & _ & Hlp). fold sb seg in Hp, Hlp.
+    assert (Direct : final_crypt E D d (CFB s) PadDefault k st data =
+                     Ok (firstn (length data) (sp_cfb (cfb_fb d) k sb (pieces (length padded) sb padded) iv), stp)).
+    { rewrite Hfinal. fold padded. rewrite Hp. cbn [bind app]. rewrite takeN_firstn. unfold blen. rewrite Nat2N.id. reflexivity. }
+    destruct (16 <? blen data) eqn:E16; [|cbn [bind feed f_buf f_st]; rewrite Direct; reflexivity].
+    cbv zeta. set (c := seg * ((blen data - 16) / seg)).
+    destruct (c =? 0) eqn:E0; [cbn [bind feed f_buf f_st]; rewrite Direct; reflexivity|].
+    apply N.eqb_neq in E0. apply N.ltb_lt in E16.
+    assert (Hc : c <= blen data - 16) by (apply N.mul_div_le; lia).
+    set (a := takeN c data). set (r := dropN c data).
+    assert (Hda : data = a ++ r) by (symmetry; apply takeN_dropN).
+    pose proof (f_equal (@length byte) Hda) as Hlen. rewrite app_length in Hlen.
+    assert (Hla : length a = (sb * N.to_nat ((blen data - 16) / seg))%nat).
+    { unfold a. rewrite takeN_length by lia. unfold c, sb. lia. }
+    assert (Hlr : (length r mod sb = length data mod sb)%nat).
+    { rewrite Hlen, Hla, Nat.add_comm, Nat.mul_comm, Nat.mod_add by lia. reflexivity. }
+    destruct (cfb_mode_whole d s k st a _ Hs Hla Hiv) as (st1 & Ha & Hreg1 & Hloa). fold sb seg in Ha, Hloa.
+    rewrite Ha. cbn [bind feed f_buf f_st]. rewrite Hfinal.
+    destruct (Hpadlen r) as [nr Hnr].
+    destruct (cfb_mode_whole d s k st1 _ nr Hs Hnr Hreg1) as (st2 & Hr & _ & Hlor). fold sb seg in Hr, Hlor.
+    rewrite Hr. cbn [bind].
+    (* the same two calls, as one call on the padded input *)
+    assert (Hpad : padded = a ++ (r ++ zeros (sb - length r mod sb))).
+    { unfold padded. rewrite <- Hlr, app_assoc, <- Hda. reflexivity. }
+    pose proof (cfb_hom E D d s k st a (r ++ zeros (sb - length r mod sb))) as Hh. fold seg in Hh.
+    rewrite <- Hpad, Hp, Ha in Hh. cbn [bind] in Hh. rewrite Hr in Hh. cbn [bind] in Hh.
+    assert (Hma : blen a mod seg = 0).
+    { unfold blen. rewrite Hla, Nat2N.inj_mul. unfold sb. rewrite N2Nat.id, N.mul_comm. apply N.mod_mul. lia. }
+    assert (Hmr : blen (r ++ zeros (sb - length r mod sb)) mod seg = 0).
+    { unfold blen. rewrite Hnr, Nat2N.inj_mul. unfold sb. rewrite N2Nat.id, N.mul_comm. apply N.mod_mul. lia. }
+    specialize (Hh Hma Hmr). fold sb in Hh, Hloa, Hlor |- *. change (m_reg st) with iv in Hh, Hloa, Hlor |- *.
+    injection Hh as Ho Hst2. rewrite Ho. f_equal.
+    rewrite firstn_app, Hloa. rewrite (firstn_all2 (n:=length data)) by (rewrite Hloa; lia).
+    f_equal. rewrite takeN_firstn. unfold blen. rewrite Nat2N.id. f_equal. lia.
+  Qed.
+End Cfb.
